@@ -29,6 +29,8 @@ ENGINE = r'''//go:build verif
 
 package roaring
 
+import "encoding/binary"
+
 func zzSelfFrame(bc *bitmapContainer, rc *runContainer16) container { return bc.ixor(rc) }
 
 //@ contract zzSelfFrame
@@ -68,6 +70,27 @@ func zzCexCaller(x int) int { return zzCexCallee(x) }
 //@ contract zzCexCaller
 //@   requires x < 1000 && x > -1000
 //@   ensures res == x + 1                      -- true of the code but not derivable from the callee's contract: the solver's model must NOT replay
+//@   modifies nothing
+
+func zzBE(b []byte) uint32 { return binary.BigEndian.Uint32(b) }
+
+//@ contract zzBE
+//@   requires len(b) >= 4
+//@   ensures res == 16777216*b[0] + 65536*b[1] + 256*b[2] + b[3]
+//@   modifies nothing
+
+func zzBEPut(b []byte, v uint16) { binary.BigEndian.PutUint16(b, v) }
+
+//@ contract zzBEPut
+//@   requires len(b) >= 2
+//@   ensures 256*b[0] + b[1] == v
+//@   modifies elems(b)
+
+func zzBEwrong(b []byte) uint32 { return binary.BigEndian.Uint32(b) }
+
+//@ contract zzBEwrong
+//@   requires len(b) >= 4
+//@   ensures res == 16777216*b[3] + 65536*b[2] + 256*b[1] + b[0]      -- false: that is the little-endian value
 //@   modifies nothing
 
 type zzP struct {
@@ -354,8 +377,8 @@ func zzSelfWrap(a uint16, b uint16) int { return int(a + b) }
 //@   ensures res == a + b                      -- false: uint16 addition wraps
 //@   modifies nothing
 '''
-ENGINE_KEYS = ['roaring.zzSelfFrame', 'roaring.zzSelfFresh', 'roaring.zzSelfByte', 'roaring.zzSelfWrap', 'roaring.zzSelfMkBad', 'roaring.zzSelfElemFrame', 'roaring.zzSelfIfaceEref', 'roaring.zzSelfLoopFrame', 'roaring.zzSelfAlias', 'roaring.zzSelfAppendAlias', 'roaring.zzSelfCallFrame', 'roaring.zzSelfNested', 'roaring.zzSelfSub', 'roaring.zzSelfBreak', 'roaring.zzSelfInline', 'roaring.zzSelfShadow', 'roaring.zzSelfTypeSwitch', 'roaring.zzSelfDiv', 'roaring.zzSelfIdx', 'roaring.zzSelfNil', 'roaring.zzSelfJoin', 'roaring.zzSelfPredArg', 'roaring.zzSelfPredHeap']
-ENGINE_OK = ['roaring.zzCopyStruct', 'roaring.zzSelfCallee', 'roaring.zzP.bump', 'roaring.zzB.bumpAll', 'roaring.zzMk', 'roaring.zzMask']
+ENGINE_KEYS = ['roaring.zzSelfFrame', 'roaring.zzSelfFresh', 'roaring.zzSelfByte', 'roaring.zzSelfWrap', 'roaring.zzSelfMkBad', 'roaring.zzSelfElemFrame', 'roaring.zzSelfIfaceEref', 'roaring.zzSelfLoopFrame', 'roaring.zzSelfAlias', 'roaring.zzSelfAppendAlias', 'roaring.zzSelfCallFrame', 'roaring.zzSelfNested', 'roaring.zzSelfSub', 'roaring.zzSelfBreak', 'roaring.zzSelfInline', 'roaring.zzSelfShadow', 'roaring.zzSelfTypeSwitch', 'roaring.zzSelfDiv', 'roaring.zzSelfIdx', 'roaring.zzSelfNil', 'roaring.zzSelfJoin', 'roaring.zzSelfPredArg', 'roaring.zzSelfPredHeap', 'roaring.zzBEwrong']
+ENGINE_OK = ['roaring.zzCopyStruct', 'roaring.zzSelfCallee', 'roaring.zzP.bump', 'roaring.zzB.bumpAll', 'roaring.zzMk', 'roaring.zzMask', 'roaring.zzBE', 'roaring.zzBEPut']
 
 FIX_COMMITS = [
  ('d2f9f61', 'roaring.runContainer16.not', 'not/'),
